@@ -341,3 +341,24 @@ def run(index, rep, tier):
                               "schema %s pairs reader %s with yielder %s" % (norm(n.targets[0].slice), r, y),
                               "the I/O registry pairs the reader %s with the tree yielder %s for schema %s: the iterator route parses with a different family of parser" % (r, y, norm(n.targets[0].slice)))
         rep.floor("R13.5", "registry rows with both reader and tree yielder", 3, rows)
+
+    # ---- R13.7 every <otu> is its own taxon unless it names a member that was there before
+    with rep.section("R13.7"):
+        rep.rule("R13.7", "NeXML: one Taxon per <otu> element on every route - the label map that recognises members of an attached namespace is filled before the <otu> loop and only read inside it (two <otu> elements with equal labels stay two taxa whether or not a namespace is attached)")
+        ptn = index.function("dendropy.dataio.nexmlreader.NexmlReader._parse_taxon_namespaces")
+        loops = [l for l in ast.walk(ptn.node) if isinstance(l, ast.For) and "findall_otu" in norm(l.iter)]
+        if len(loops) != 1:
+            raise AnalysisError("R13.7: <otu> loop of _parse_taxon_namespaces not recognised")
+        L = loops[0]
+        probes = {norm(x.value) for x in ast.walk(L) if isinstance(x, ast.Subscript) and isinstance(x.ctx, ast.Load) and isinstance(x.value, ast.Name) and "label" in norm(x.slice)}
+        probes |= {norm(c.func.value) for c in ast.walk(L) if isinstance(c, ast.Call) and isinstance(c.func, ast.Attribute) and c.func.attr == "get" and isinstance(c.func.value, ast.Name) and c.args and "label" in norm(c.args[0]) and "map" in norm(c.func.value)}
+        if not probes:
+            raise AnalysisError("R13.7: label lookup inside the <otu> loop not recognised")
+        nst = 0
+        for pmap in sorted(probes):
+            ws = [x for x in ast.walk(L) if (isinstance(x, ast.Subscript) and isinstance(x.ctx, (ast.Store, ast.Del)) and norm(x.value) == pmap)
+                  or (isinstance(x, ast.Call) and isinstance(x.func, ast.Attribute) and norm(x.func.value) == pmap and x.func.attr in MUTATORS)]
+            nst += 1
+            rep.check(not ws, "R13.7", ptn.qualname, "label map `%s` written inside the <otu> loop" % pmap, fn_where(ptn, ws[0] if ws else L), "`%s` is only read inside the <otu> loop" % pmap,
+                      "_parse_taxon_namespaces stores into `%s` inside the loop over <otu> elements (`%s`): the map is consulted only when a namespace is attached, so with it growing during the loop a later <otu> with the same label is folded into the earlier one on the iterator / data-set routes while the list and single-tree routes (no attached namespace) keep two taxa - the routes no longer deliver the same trees" % (pmap, norm(ws[0])[:60] if ws else ""))
+        rep.floor("R13.7", "label maps probed in the <otu> loop", 1, nst)
